@@ -437,3 +437,49 @@ def subwindow(facts: CppFacts):
         raise AnalysisError(f"only {res.instances} bit-block GetOffsetStorage methods found")
     res.analysed = [MEM]
     return res
+
+
+def bitcopy(facts: CppFacts):
+    """R-BITCOPY (C20): copying `size` bits into a bit block is a merge: the low `size` bits come from the source, every bit
+    of the destination block above them keeps its value ("bits past that size are untouched").  In the copy methods of
+    BitBlock and OffsetBitBlock the value handed to (Unchecked)WriteUInt must be `(own & ~mask) | (other & mask)` with
+    mask = the low `size` bits: an own (Unchecked)ReadUInt() under `~`-mask, the other block's read under the mask, joined
+    by `|`.  WriteUInt's own read-modify-write only protects bits *outside* the block."""
+    res = RuleResult("R-BITCOPY")
+    for m in facts.methods:
+        short = m.cls.rsplit("::", 1)[-1]
+        if short not in ("BitBlock", "OffsetBitBlock") or m.name not in ("UncheckedCopyFrom", "TryToCopyFrom"):
+            continue
+        body = " ".join(re.sub(r"//[^\n]*", "", m.body).split())
+        wm = re.search(r"(?<![\w.])(Unchecked)?WriteUInt\s*\(", body)
+        res.instances += 1
+        key = f"{m.file}|{short}::{m.name}"
+        if not wm:
+            res.add(key + "|no-write", f"{short}::{m.name} does not write", m.file, m.line, f"{short}::{m.name}")
+            continue
+        k0 = wm.end() - 1
+        d, k1 = 0, k0
+        while k1 < len(body):
+            if body[k1] == "(":
+                d += 1
+            elif body[k1] == ")":
+                d -= 1
+                if d == 0:
+                    break
+            k1 += 1
+        arg = body[k0 + 1:k1]
+        own = re.search(r"(?<![\w.])(Unchecked)?ReadUInt\s*\(\s*\)\s*&\s*(static_cast<\s*ValueType\s*>\s*\(\s*)?~\s*CopyMask\s*\(\s*size\s*\)", arg)
+        src = re.search(r"other\s*\.\s*(Unchecked)?ReadUInt\s*\(\s*\)\s*\)?\s*&\s*CopyMask\s*\(\s*size\s*\)", arg)
+        if not own:
+            res.add(key + "|own-bits", f"{short}::{m.name} writes `{arg[:90]}`: the destination's own bits above `size` are not merged in "
+                    "(`own & ~mask`), so a copy of a value narrower than the block zeroes the rest of the block", m.file, m.line,
+                    f"{short}::{m.name}")
+        if not src:
+            res.add(key + "|source-bits", f"{short}::{m.name} does not take `other.ReadUInt() & mask(size)`", m.file, m.line,
+                    f"{short}::{m.name}")
+        if own and src and "|" not in arg:
+            res.add(key + "|join", f"{short}::{m.name}: the two parts are not joined by `|`", m.file, m.line, f"{short}::{m.name}")
+    if res.instances < 4 and not res.findings:
+        raise AnalysisError(f"only {res.instances} bit-block copy methods found")
+    res.analysed = [MEM]
+    return res
